@@ -449,6 +449,7 @@ struct Ev
 	std::uint32_t byte_counter;
 	bool has_drop_fun;
 	void const* channel;
+	std::uint16_t chan_src_port, chan_dst_port; // channel->ep[0].port(), ep[1].port() when the packet carries a channel
 	std::uint64_t uid;    // harness packet id when known (direct injection), else 0
 };
 
@@ -464,8 +465,21 @@ struct EvLog
 	std::uint64_t next = 0;
 	bool enabled = true;
 	void clear() { ev.clear(); next = 0; }
+	std::size_t cap = 8000000;
 	Ev& add(int probe, int kind, sim::aux::packet const& p)
 	{
+		if (ev.size() >= cap)
+		{
+			// no workload here legitimately produces this many packet events in one case: the
+			// library is spinning (possibly inside a single handler, where the step hook cannot see it)
+			// Spinning at one virtual instant is a livelock; otherwise the case is merely over the
+			// harness's event budget and is abandoned without a verdict (reported under HARNESS).
+			bool const spinning = ev[ev.size() - 1000000].t == now_ns();
+			R().violation(spinning ? (R().args ? R().args->prop : "?") : "HARNESS", spinning ? "packet-storm-at-one-instant" : "event-budget-exceeded"
+				, fmt("more than %zu packet events in one case (virtual time %" PRId64 " ns)", cap, now_ns()));
+			std::fflush(stdout);
+			_exit(77);
+		}
 		Ev e;
 		e.seq = next++;
 		e.t = now_ns();
@@ -481,6 +495,8 @@ struct EvLog
 		e.byte_counter = p.byte_counter;
 		e.has_drop_fun = bool(p.drop_fun);
 		e.channel = p.channel.get();
+		e.chan_src_port = p.channel ? p.channel->ep[0].port() : 0;
+		e.chan_dst_port = p.channel ? p.channel->ep[1].port() : 0;
 		e.uid = 0;
 		ev.push_back(e);
 		return ev.back();
@@ -498,6 +514,7 @@ struct Probe : sim::sink
 	void incoming_packet(sim::aux::packet p) override
 	{
 		if (log && log->enabled) log->add(id, EV_PASS, p);
+		VLOG("  [%" PRId64 "] probe %s: type=%d seq=%" PRIu64 " size=%zu+%d", now_ns(), name.c_str(), int(p.type), p.seq_nr, p.buffer.size(), p.overhead);
 		if (wrap_drop && p.ok_to_drop())
 		{
 			EvLog* l = log; int pid = id;
@@ -691,6 +708,7 @@ struct Runner
 	bool livelock = false;
 	explicit Runner(sim::simulation& sim) : s(sim)
 	{
+		if (R().args) livelock_limit = std::uint64_t(R().args->geti("livelock", 5000000));
 		s.verif_step_hook = [this]() {
 			Mon& m = M();
 			++m.steps;
@@ -700,7 +718,9 @@ struct Runner
 				livelock = true;
 				R().violation(R().args->prop, "livelock"
 					, fmt("%" PRIu64 " handler executions without the virtual clock advancing", m.steps - m.steps_at_clock));
-				s.stop();
+				// the simulation is wedged: abandon this process, the driver resumes with the next case
+				std::fflush(stdout);
+				_exit(77);
 			}
 			if (on_step) on_step();
 		};
